@@ -215,6 +215,15 @@ def check_nack(ctx, rng, fe):
         # D and Dp differ only in a trailing implicit-digest component: two different Interest names filed under one table node
         names = {'A': [C(b'n'), C(b'a')], 'B': [C(b'n'), C(b'b')], 'AB': [C(b'n'), C(b'a'), C(b'b')], 'N': [C(b'n')],
                  'D': [C(b'n'), C(b'd'), rc.comp(1, bytes(range(32)))], 'Dp': [C(b'n'), C(b'd')]}
+        # Interests whose own encoding needs a one-octet / a three-octet Length (the Interest echoed inside the Nack is 252, 253 and
+        # 300+ octets long), and one far beyond a datagram
+        for lab, target_len in (('L252', 252), ('L253', 253), ('L300', 300), ('L70k', 70000)):
+            for pad in range(target_len - 40, target_len + 1):
+                nm_ = [C(b'n'), C(b'long'), rc.comp(8, b'x' * max(0, pad))]
+                iw_ = bytes(make_interest(nm_, InterestParam(nonce=1, lifetime=4000)))
+                if len(iw_) - (2 if len(iw_) < 255 else 4) >= target_len:
+                    break
+            names[lab] = nm_
         knames = dict(names)
         if fe == 'v2':
             T.app.attach_handler([C(b'n')], lambda n, p, reply, c: T.log.append(('handler', tuple(bytes(x) for x in n), None, None)))
@@ -288,7 +297,7 @@ def check_pit_token(ctx, rng):
         got = {}
 
         def h(n, p, reply, c):
-            got[tuple(bytes(x) for x in n)[:2]] = (reply, c)
+            got[(tuple(bytes(x) for x in n)[:2], c['int_param'].nonce)] = (reply, c)
 
         async def accept(n, s_, c):
             return types.ValidResult.PASS
@@ -308,6 +317,10 @@ def check_pit_token(ctx, rng):
             for j in range(k):
                 seq += 1
                 name = [C(b't'), rc.comp(8, str(seq).encode())]
+                if batch and rng.random() < 0.3:
+                    # another copy of an Interest that is still outstanding (a retransmission, a second downstream): same name, its own token
+                    name = list(rng.choice(batch)[0])
+                    ctx.event('token-interests-of-one-name-outstanding-together')
                 tk = rng.random()
                 token = None if tk < 0.2 else b'' if tk < 0.3 else bytes(rng.choice([1, 4, 8, 32, 33, 40])) if tk < 0.4 else \
                     gen.rand_bytes(rng, rng.choice([1, 2, 4, 8, 16, 32, 33, 40]))
@@ -325,14 +338,14 @@ def check_pit_token(ctx, rng):
                 await face.deliver(wire)
                 for _ in range(3):
                     await asyncio.sleep(0)
-                batch.append((tuple(name), token, L, S.now_ms()))
+                batch.append((tuple(name), token, L, S.now_ms(), seq))
             rng.shuffle(batch)
-            for (name, token, L, t_arr) in batch:
-                if name not in got:
+            for (name, token, L, t_arr, nonce_) in batch:
+                if (name, nonce_) not in got:
                     res['viol'].append(('token-interest-not-delivered', 'Interest inside an envelope with a PIT token did not reach its handler',
                                         {'token': token}))
                     continue
-                reply, c = got[name]
+                reply, c = got[(name, nonce_)]
                 late = rng.random() < 0.2
                 if late:
                     await S.sleep_until_ms(t_arr + L + 5)
@@ -409,6 +422,7 @@ def run(ctx):
     check_pit_token(ctx, rng)
     for k in ('twin-delivery-with-effect', 'nack-delivered', 'token-reply', 'fragmented-envelope', 'nack-with-cancel-in-same-turn', 'token-round-debug-logging', 'token-second-reply'):
         ctx.need_event(k)
+    ctx.need_event('token-interests-of-one-name-outstanding-together')
     ctx.need_class('reply-size->=2048')
     ctx.need_class('token-interest-signed')
     ctx.need_class('token-interest-parameterised')
